@@ -20,21 +20,19 @@ import (
 	"github.com/gogo/protobuf/proto"
 	"github.com/pingcap/kvproto/pkg/metapb"
 	"github.com/pingcap/kvproto/pkg/pdpb"
-	"github.com/pingcap/log"
 	"github.com/tikv/pd/pkg/mock/mockid"
 	"github.com/tikv/pd/server/cluster"
 	"github.com/tikv/pd/server/config"
 	"github.com/tikv/pd/server/core"
 	"github.com/tikv/pd/server/kv"
 	"github.com/tikv/pd/server/versioninfo"
-	"go.uber.org/zap"
 	"pdverif/vkit"
 	"pdverif/vkit/faultkv"
 	"pgregory.net/rapid"
 )
 
 func TestMain(m *testing.M) {
-	log.ReplaceGlobals(zap.NewNop(), &log.ZapProperties{})
+	vkit.SilenceLog()
 	vkit.MainWith(m, "C06", encCleanup)
 }
 func TestProp(t *testing.T)   { vkit.RunAll(t) }
